@@ -142,6 +142,21 @@ Inductive ritem :=
 | RField (num ty : N) (req : bool) (comp : bytes)
 | RGroup (num : N) (req : bool) (comp : bytes) (sub : list ritem).
 
+(* FIXT mode (f8c -x transport.xml application.xml): header, trailer and the transport's messages
+   are expanded against the TRANSPORT's components, application messages against the application's
+   (precompfixt); only the application's components are listed in the generated component table,
+   and the `component` attribute a transport component leaves on its members is looked up BY NAME in
+   that table.  The schema reader marks the transport's components with a leading '~' (126): such a
+   component is not listed, and its members are attributed to the application component of the same
+   name if there is one, to no component otherwise. *)
+Definition TMARK : N := 126.
+Definition is_tkey (k : key) : bool := match k with c :: _ => c =? TMARK | [] => false end.
+Definition comp_attr (comps : list (key * list item)) (n : bytes) : bytes :=
+  match n with
+  | c :: rest => if c =? TMARK then (if sm_mem rest comps then rest else []) else n
+  | [] => n
+  end.
+
 Section Expand.
   Variable lk : bytes -> option (N * N).
   Variable comps : list (key * list item).
@@ -171,7 +186,7 @@ Section Expand.
                       end
                   | IComp n r =>
                       match sm_find n comps with
-                      | Some sub => expand f quirk (if quirk then r else r && ctx) n sub
+                      | Some sub => expand f quirk (if quirk then r else r && ctx) (comp_attr comps n) sub
                       | None => None
                       end
                   end), go tl with
@@ -371,7 +386,8 @@ Definition mtab_of (x : xschema) : list (key * mtab_entry) :=
 Definition tables_of (s : schema) (x : xschema) : option tables :=
   match version_of s, fold_left (ftab_step (used_nums x)) (x_fm x) (Some []) with
   | Some v, Some ft =>
-    Some (mkTables v (s_type s ++ [46] ++ s_major s ++ [46] ++ s_minor s) ft (mtab_of x) (sm_keys (x_comps x)))
+    Some (mkTables v (s_type s ++ [46] ++ s_major s ++ [46] ++ s_minor s) ft (mtab_of x)
+                   (filter (fun k => negb (is_tkey k)) (sm_keys (x_comps x))))
   | _, _ => None
   end.
 
